@@ -517,7 +517,77 @@ fn sym(sx: &Sx) -> String {
 }
 
 /// Returns `Some(result)` when `head` is a mode of this area.
+// ---------------------------------------------------------------------------------------------------------------------------
+// hand-written types with a subcommand enum NESTED in a subcommand enum (`#[command(subcommand)]` on a variant), consumed
+// through `has_subcommand`: as an `Option<Sub>` field and flattened into another enum (implementation-only mode `dnested`)
+mod nested {
+    #[derive(clap::Parser, Debug)]
+    #[command(name = "cli")]
+    pub struct NCli {
+        #[arg(long)]
+        pub verbose: bool,
+        #[command(subcommand)]
+        pub cmd: Option<NCmd>,
+    }
+    #[derive(clap::Subcommand, Debug)]
+    pub enum NCmd {
+        Status,
+        #[command(subcommand)]
+        Remote(NRemote),
+    }
+    #[derive(clap::Subcommand, Debug)]
+    pub enum NRemote {
+        Add(NAdd),
+        Remove { name: String },
+    }
+    #[derive(clap::Args, Debug)]
+    pub struct NAdd {
+        pub name: String,
+        #[arg(long)]
+        pub url: Option<String>,
+    }
+    #[derive(clap::Parser, Debug)]
+    #[command(name = "tool")]
+    pub enum NTool {
+        #[command(flatten)]
+        Base(NCmd),
+        Version,
+    }
+}
+
+fn dnested(which: &str, argv: &[String]) -> String {
+    fn chain(m: &clap::ArgMatches) -> String {
+        let mut out = vec![];
+        let mut cur = m;
+        while let Some((n, sm)) = cur.subcommand() {
+            out.push(n.to_string());
+            cur = sm;
+        }
+        out.join("/")
+    }
+    fn one<T: Parser + CommandFactory + std::fmt::Debug>(argv: &[String]) -> String {
+        let d = match std::panic::catch_unwind(|| T::try_parse_from(argv)) {
+            Ok(Ok(v)) => format!("(derived ok {})", hexs(&format!("{v:?}"))),
+            Ok(Err(e)) => format!("(derived err {})", kind_name(e.kind())),
+            Err(_) => "(derived panic)".to_string(),
+        };
+        let c = match T::command().try_get_matches_from(argv) {
+            Ok(m) => format!("(command ok {})", hexs(&chain(&m))),
+            Err(e) => format!("(command err {})", kind_name(e.kind())),
+        };
+        format!("{d} {c}")
+    }
+    match which {
+        "cli" => one::<nested::NCli>(argv),
+        "tool" => one::<nested::NTool>(argv),
+        _ => "badcase".into(),
+    }
+}
+
 pub fn dispatch(head: &str, args: &[Sx]) -> Option<String> {
+    if head == "dnested" {
+        return Some(dnested(sym(&args[0]).as_str(), &strs(&args[1])));
+    }
     match head {
         "dcmd" | "dparse" | "dround" | "dupdate" => {
             let name = sym(&args[0]);
